@@ -33,6 +33,28 @@ def relayout(A, key=None):
     return big[1::3][: A.shape[0]]
 
 
+def npint(v, key):
+    """An integer argument the way callers often get it - np.int64 (from np.where, np.arange, shape arithmetic) or
+    np.int32 - in one case out of three; a plain int otherwise.  Deterministic in `key`."""
+    if isinstance(v, (bool, np.bool_)) or not isinstance(v, (int, np.integer)):
+        return v
+    k = key % 6
+    if k == 0:
+        return np.int64(v)
+    if k == 1 and abs(int(v)) < 2 ** 31:
+        return np.int32(v)
+    return int(v)
+
+
+def npints(values, key, kind=None):
+    """A collection of indices with some members numpy integers; container type preserved (list / tuple / set)."""
+    if isinstance(values, (set, frozenset)):
+        return type(values)(npint(v, key + 2 * n) for n, v in enumerate(sorted(values)))
+    if isinstance(values, (list, tuple)):
+        return type(values)(npint(v, key + 2 * n) for n, v in enumerate(values))
+    return values
+
+
 def to_np(rows, dtype="int"):
     """0/1 adjacency in any of the dtypes - and memory layouts - a caller may reasonably use for a 0/1 matrix."""
     return relayout(G.matrix_from_rows(rows, dtype=DTYPES.get(dtype, dtype)))
